@@ -90,7 +90,10 @@ func TransformModuleFilesToModel( //nolint:funlen,gocognit,cyclop
 		}
 
 		for _, typeDef := range mdl.GetTypeDefinitions() {
-			_, extension := typeDefExtensions[typeDef.GetType()]
+			// the extensions map is keyed by type name: compare the definition itself, so that a file
+			// which declares a type and also extends it keeps the declaration a declaration
+			extendedTypeDef, extended := typeDefExtensions[typeDef.GetType()]
+			extension := extended && extendedTypeDef == typeDef
 			if slices.Contains(types, typeDef.GetType()) && !extension {
 				lineIndex := utils.GetTypeLineNumber(typeDef.GetType(), lines)
 				line, col := utils.ConstructLineAndColumnData(lines, lineIndex, typeDef.GetType())
